@@ -73,7 +73,11 @@ def main():
     ap.add_argument('--suite', action='store_true')
     ap.add_argument('--tier', default='quick')
     ap.add_argument('--dir', default=os.path.join(HERE, 'mutants'))
+    ap.add_argument('--expect-clean', action='store_true',
+                    help='the diffs are correct alternative implementations: the check must exit 0 on each (default dir: mutants_invalid)')
     a = ap.parse_args()
+    if a.expect_clean and a.dir == os.path.join(HERE, 'mutants'):
+        a.dir = os.path.join(HERE, 'mutants_invalid')
     diffs = sorted(glob.glob(os.path.join(a.dir, '*.diff')))
     results = []
     for d in diffs:
@@ -85,6 +89,10 @@ def main():
         r = run_mutant(d, a.tier, a.suite)
         results.append(r)
         print(json.dumps(r), flush=True)
+    if a.expect_clean:
+        alarmed = [r['mutant'] for r in results if r.get('exit') != 0]
+        print(f"must-not-alarm: {len(results) - len(alarmed)}/{len(results)} correct alternatives accepted; alarms on: {alarmed}")
+        return 0 if not alarmed else 1
     missed = [r['mutant'] for r in results if not r.get('caught')]
     print(f"sensitivity: {len(results) - len(missed)}/{len(results)} mutants reported; missed: {missed}")
     return 0 if not missed else 1
